@@ -329,6 +329,10 @@ def worker(argv):
         lst = []
         for i in range(k):
             scn = mod.generate(gen.rng_for(seed, "C15:" + pid, i), "quick")
+            if scn.get("line_level"):
+                # line-level pre-emption points are the source lines of icontract, and -O removes the assert lines: the
+                # schedule itself would differ between configurations. Hand-over-level switching is mode-independent.
+                scn["line_level"] = False
             try:
                 res = mod.execute(scn)
                 lst.append([res.get("digest"), sorted((v["rule"], v["classifier"]) for v in res.get("violations") or [])])
